@@ -89,10 +89,16 @@ fn extension_group(input: Input<'_>) -> ParserResult<'_, SequenceComponent> {
                     SequenceComponent::ComponentsOf(c) => components_of.push(c),
                 }
             }
+            // A group may consist of COMPONENTS OF only: name it after the first member if
+            // there is one, else after the first referenced type.
+            let first_name = members
+                .first()
+                .map(|m| m.name.clone())
+                .or_else(|| components_of.first().cloned())
+                .unwrap_or_default();
             SequenceComponent::Member(SequenceOrSetMember {
                 is_recursive: false,
-                name: String::from(INTERNAL_EXTENSION_GROUP_NAME_PREFIX)
-                    + &members.first().unwrap().name,
+                name: String::from(INTERNAL_EXTENSION_GROUP_NAME_PREFIX) + &first_name,
                 tag: None,
                 ty: ASN1Type::Sequence(SequenceOrSet {
                     components_of,
